@@ -105,14 +105,18 @@ def run(ctx):
                     occ = m.occ(pi, name)
                     indexed = rng.random() < 0.5
                     idx = rng.randrange(len(occ)) if indexed else None
-                    key = (name, idx) if indexed else name
+                    # the caller may spell the name in any case: the document keeps its own spelling
+                    respell = lambda nm: rng.choice([nm, nm, nm.upper(), nm.lower(), nm.swapcase()])
+                    called = respell(name)
+                    key = (called, idx) if indexed else called
                     moving = [occ[idx]] if indexed else list(occ)
                     if op in ("before", "after"):
                         rname = rng.choice(names)
                         rocc = m.occ(pi, rname)
                         rindexed = rng.random() < 0.4
                         ridx = rng.randrange(len(rocc)) if rindexed else None
-                        rkey = (rname, ridx) if rindexed else rname
+                        rcalled = respell(rname)
+                        rkey = (rcalled, ridx) if rindexed else rcalled
                         ref = rocc[ridx] if rindexed else (rocc[0] if op == "before" else rocc[-1])
                         ops.append([pi, "order_" + op, list(key) if indexed else key, list(rkey) if rindexed else rkey])
                         if ref in moving:
@@ -139,9 +143,10 @@ def run(ctx):
                     # a key with many ties: the sort is stable with respect to the CURRENT order
                     # (a key that puts the raw name into a tuple is left out: tuples compare with == first, which is
                     # case-insensitive for the library's name objects, so its outcome is not that of plain strings)
-                    which = rng.choice(["constant", "first letter", "length", "the name itself", "(starts with X-, lower-cased name)"])
+                    which = rng.choice(["constant", "first letter", "length", "the name itself", "the name itself", "str(name)",
+                                        "(starts with X-, lower-cased name)"])
                     kf = {"constant": lambda nm: 0, "first letter": lambda nm: str(nm)[:1].lower(), "length": lambda nm: len(str(nm)),
-                          "the name itself": lambda nm: nm,
+                          "the name itself": lambda nm: nm, "str(name)": lambda nm: str(nm),
                           "(starts with X-, lower-cased name)": lambda nm: (nm.startswith("X-"), nm.lower())}[which]
                     ops.append([pi, "sort_fields", "key=" + which])
                     m.paras[pi] = sorted(mp, key=lambda e: kf(str(e[0])))      # the model sorts plain strings
